@@ -86,6 +86,25 @@ def gen_case(rng):
             extent = [(max(0, core_start - nb_len), min(length, core_start + core_len + nb_len))]
         protos.append({"first": first, "ncore": ncore, "nb": nb, "product": product, "sideloaded": sideloaded,
                        "core": [list(c) for c in core], "extent": [list(e) for e in extent]})
+    # a protocluster with the coordinates of another one (or of the span of two overlapping ones) but its core
+    # somewhere else inside them, as clipping at a record end, sideloading or reused results produce
+    if protos and rng.random() < 0.2:
+        base = rng.choice(protos)
+        target = [tuple(e) for e in base["extent"]]
+        other = rng.choice(protos)
+        if other is not base and len(target) == 1 and len(other["extent"]) == 1 \
+                and other["extent"][0][0] < target[0][1] and target[0][0] < other["extent"][0][1] and rng.random() < 0.6:
+            target = [(min(target[0][0], other["extent"][0][0]), max(target[0][1], other["extent"][0][1]))]
+        inside = [g for g in genes if any(s <= g["loc"]["parts"][0][0] and g["loc"]["parts"][0][1] <= e for s, e in target)]
+        if inside:
+            gene = rng.choice(inside)
+            product = rng.choice(products) + "x"
+            sideloaded = rng.random() < 0.3
+            if not sideloaded:
+                gene["core"].append(product)
+            protos.append({"first": int(gene["name"][1:]), "ncore": 1, "nb": 0, "product": product, "sideloaded": sideloaded,
+                           "core": [list(gene["loc"]["parts"][0])], "extent": [list(e) for e in target],
+                           "borrowed_extent": True})
     return {"L": length, "circular": circular, "genes": genes, "protoclusters": protos}
 
 
